@@ -5,11 +5,13 @@ ENTRY = dict(
         title="Automatic cut finding returns a feasible, faithfully accounted cut circuit",
         prop_file="Properties/C07.v",
         corr_files=["Corr/C07Corr.v"],
-        theorems=["c07_only_markers", "c07_erase_markers", "c07_metadata", "c07_accounting", "c07_feasible",
-                  "c07_fails_only_if_infeasible", "c07_succeeds_when_feasible", "c07_cut_positions",
-                  "c07_export_never_crashes", "c07_terminates",
+        theorems=["c07_correct", "c07_render_injective", "c07_only_markers", "c07_erase_markers", "c07_metadata", "c07_accounting",
+                  "c07_feasible", "c07_cut_positions",
+                  "c07_fails_only_if_infeasible", "c07_succeeds_when_feasible", "c07_clbits_always_refused",
+                  "c07_export_never_crashes", "c07_indices_in_range", "c07_result_in_range", "c07_terminates",
                   "c07_pop_is_minimum", "c07_pop_contract_determines", "c07_queue_is_multiset", "c07_queue_seqs_distinct",
-                  "c07_compression_invisible", "c07_facts"],
+                  "c07_any_pop_same_search",
+                  "c07_compression_congruence", "c07_union_respects_equiv", "c07_facts"],
         allowed_axioms=[],
         facts=["cf_left_wire_mult", "cf_right_wire_mult", "cf_both_wires_mult", "cf_gate_cut_uses_gate_gamma",
                "cf_action_registry", "cf_search_funcs", "cf_upper_bound_cost_is_gamma_ub", "cf_default_max_gamma",
@@ -27,8 +29,14 @@ ENTRY = dict(
                    "whenever some permitted plan is feasible (c07_succeeds_when_feasible, any max_gamma/max_backjumps/tape); the position of "
                    "every input instruction and of every marker in the output is given in closed form (running insertion offset) and "
                    "metadata['cuts'] is exactly that list (c07_cut_positions); never any other "
-                   "exception (all assertions incl. those of export_cuts unreachable); explicit fuel bound; the priority queue enters "
-                   "only through the contract 'pop returns a minimum and removes it' (proved sufficient). Closed under the global "
+                   "exception: all assertions incl. those of export_cuts are unreachable and the nth_error-modelled lookups are in range "
+                   "(c07_export_never_crashes); the array accesses the model totalises (nth with default, upd) are shown in range in "
+                   "every reachable search state and in the result (c07_indices_in_range, c07_result_in_range); with classical bits the "
+                   "call never returns (c07_clbits_always_refused); explicit fuel bound; the priority queue enters "
+                   "only through the contract 'pop returns a minimum and removes it' (c07_any_pop_same_search). c07_correct bundles all "
+                   "clauses for ONE plan, which is unique for the returned circuit (c07_render_injective). c07_metadata is close to "
+                   "definitional (metadata is a scan of the output in model and source alike; the substantive statement is "
+                   "c07_cut_positions); c07_erase_markers is a fact about render only (reading aid). Closed under the global "
                    "context. The model is run against the implementation on >450 (quick) / >7000 (thorough) generated cases per run, "
                    "comparing the output circuit, metadata, final and greedy search state, SearchStats, random-tape consumption and "
                    "the SimpleGateList after export_cuts.",
@@ -40,7 +48,10 @@ ENTRY = dict(
             "SearchFunctions tables, stop_at_first_min, overhead = gamma_UB**2, defaults)",
             "bell_pairs, gamma_LB, cut_actions_list are not modelled: they do not influence the default cost function "
             "(facts obligation); a cost tuple (gamma_UB, inf) is modelled by gamma_UB",
-            "path compression in find_wire_root is left out of the state; c07_compression_invisible proves it unobservable",
+            "path compression in find_wire_root is left out of the state. Proved: compression yields an equivalent forest (same length, "
+            "well-formed, same find, same roots: c07_compression_congruence) and union_roots respects that equivalence "
+            "(c07_union_respects_equiv), i.e. every union-find operation the model uses cannot distinguish a compressed forest; the "
+            "whole-run simulation with compression at every find is NOT stated as one theorem",
             "oracles: the numpy Generator of the priority queue is a tape nat -> Q recorded by wrapping numpy.random.default_rng "
             "(theorems hold for every tape)",
             "heapq: the model keeps the queue as a list and pops the least (cost,-depth,rand,seq) entry. The former blanket assumption "
@@ -48,7 +59,10 @@ ENTRY = dict(
             "entry in the heap under the tuple order and removes exactly it, heappush adds exactly the entry': c07_pop_is_minimum "
             "(the model's pop satisfies it), c07_pop_contract_determines (with pairwise different seq numbers - an invariant, "
             "c07_queue_seqs_distinct - the contract determines the popped entry and the remaining multiset) and "
-            "c07_queue_is_multiset (the search depends on the queue only as a multiset) are proved; heapq itself is not modelled",
+            "c07_queue_is_multiset (the search loop depends on the queue only as a multiset) are proved, and the capstone "
+            "c07_any_pop_same_search runs the whole optimisation (greedy start, passes, fall-back, driver loop) with an ABSTRACT pop "
+            "satisfying exactly that contract and shows the same best state, goals, counters and flag as the list model. heapq itself "
+            "is not modelled (kind: oracle contract, one hypothesis)",
             "gate kappas and the canonical wrapped form of a gate (TwoQubitQPDGate.from_instruction) are inputs supplied by the "
             "harness from QPDBasis; theorems about the segment graph assume the wrapped form is a TwoQubitQPDGate (gtab_ok)",
             "max_wire_cuts_gamma is modelled exactly over Q (least k with 2^(k+1) >= g+1); binary64 corner cases of "
@@ -57,6 +71,9 @@ ENTRY = dict(
             "the model implements the REPAIRED queue behaviour of BestFirstSearch.optimization_pass (DESIGN F3: a popped state over a "
             "cost bound is pushed back unless min_reached); the C07 checker does not compare minimum_reached / tape consumption on "
             "cases where the model took that branch unless CKT_C07_STRICT=1 (that flag is property C08's subject)",
+            "NOT proved (tested by the harness judge only): that the wire-segment graph agrees with the package's own "
+            "cut_wires + partition_problem on barrier-free outputs; that the finder's plan space (wire cuts only directly before "
+            "two-qubit gates) loses no feasible width; any link of kappa to C15's gamma theorems (kappas are harness inputs)",
             "theorem hypotheses: circ_wf (multi-qubit non-barrier instructions act on exactly two distinct qubits), circ_plain (gates "
             "and barriers only) for the segment-graph theorems; circuits with classical bits are refused by cut_gates and lie outside "
             "the property's domain",
